@@ -25,6 +25,7 @@ H = "CPP/Clipper2Lib/include/clipper2/"
 
 CONTROLS = {
     "C01": [
+        ("TopX measures from the top vertex's x", 'CPP/Clipper2Lib/src/clipper.engine.cpp', 'return ae.bot.x + static_cast<int64_t>(nearbyint(ae.dx * (currentY - ae.bot.y)));', 'return ae.top.x + static_cast<int64_t>(nearbyint(ae.dx * (currentY - ae.bot.y)));', 'POLY.topx'),
         ('HI_PRECISION intersection: hitx adds where it must subtract', 'CPP/Clipper2Lib/include/clipper2/clipper.core.h', '      double hitx = ((ln1dx * ln1c) - (ln2dx * ln0c)) / det;\n      double hity = ((ln2dy * ln0c) - (ln1dy * ln1c)) / det;\n\n      ip.x = originx + (T)nearbyint(hitx);', '      double hitx = ((ln1dx * ln1c) + (ln2dx * ln0c)) / det;\n      double hity = ((ln2dy * ln0c) - (ln1dy * ln1c)) / det;\n\n      ip.x = originx + (T)nearbyint(hitx);', 'POLY.intersect'),
         ("winding counts narrowed to 8 bits", H + "clipper.engine.h", "\t\tint wind_cnt = 0;", "\t\tint8_t wind_cnt = 0;", "TYPE.wind-count"),
         ("clamped intersection takes its x at the top of the scanbeam", E, "        if (abs_dx1 < abs_dx2) ip.x = TopX(e1, ip.y);\n        else ip.x = TopX(e2, ip.y);", "        if (abs_dx1 < abs_dx2) ip.x = TopX(e1, top_y);\n        else ip.x = TopX(e2, top_y);", "IP.on-edge"),
@@ -69,6 +70,7 @@ CONTROLS = {
         ("closing vertex compared with the first vertex of the first path", E, "if (!is_open && prev_v->pt == v0->pt)", "if (!is_open && prev_v->pt == vertices->pt)", "ADD.closing-vertex"),
     ],
     "C06": [
+        ('miter point uses one normal twice (both builds)', 'CPP/Clipper2Lib/src/clipper.offset.cpp', '#ifdef USINGZ\n    path_out.emplace_back(\n\t\tpath[j].x + (norms[k].x + norms[j].x) * q,\n\t\tpath[j].y + (norms[k].y + norms[j].y) * q,\n        path[j].z);\n#else\n    path_out.emplace_back(\n\t\tpath[j].x + (norms[k].x + norms[j].x) * q,\n        path[j].y + (norms[k].y + norms[j].y) * q);', '#ifdef USINGZ\n    path_out.emplace_back(\n\t\tpath[j].x + (norms[k].x + norms[j].x) * q,\n\t\tpath[j].y + (norms[k].y + norms[k].y) * q,\n        path[j].z);\n#else\n    path_out.emplace_back(\n\t\tpath[j].x + (norms[k].x + norms[j].x) * q,\n        path[j].y + (norms[k].y + norms[k].y) * q);', 'POLY.offset'),
         ("mitered vertex differs in the USINGZ build only", O, "#ifdef USINGZ\n    path_out.emplace_back(\n\t\tpath[j].x + (norms[k].x + norms[j].x) * q,\n\t\tpath[j].y + (norms[k].y + norms[j].y) * q,\n        path[j].z);", "#ifdef USINGZ\n    path_out.emplace_back(\n\t\tpath[j].x + (norms[k].x + norms[j].x) * q,\n\t\tpath[j].y + (norms[k].y + norms[k].y) * q,\n        path[j].z);", "ZERASE"),
         ("miter threshold derived once in the constructor only", O, "\t\ttemp_lim_ = (miter_limit_ <= 1) ?\n", "\t\tif (temp_lim_ == 0) temp_lim_ = (miter_limit_ <= 1) ?\n", "TARGET.set"),
         ("clean-up union of reversed paths with the wrong fill rule (tree output)", O, "\t\t\tc.Execute(ClipType::Union, FillRule::Negative, *solution_tree);",
@@ -84,6 +86,7 @@ CONTROLS = {
         ("sum computed with the operands exchanged", H + "clipper.minkowski.h", "      if (patLen == 0 || pathLen == 0) return Paths64();\n", "      if (patLen == 0 || pathLen == 0) return Paths64();\n      if (isSum && pathLen > patLen) return Minkowski(path, pattern, true, isClosed);\n", "MINK.roles"),
     ],
     "C07": [
+        ('unit normal points to the left of the edge', 'CPP/Clipper2Lib/src/clipper.offset.cpp', '\treturn PointD(dy, -dx);', '\treturn PointD(-dy, dx);', 'POLY.offset'),
         ('miter threshold derived once in the constructor only', 'CPP/Clipper2Lib/src/clipper.offset.cpp', '\t\ttemp_lim_ = (miter_limit_ <= 1) ?\n', '\t\tif (temp_lim_ == 0) temp_lim_ = (miter_limit_ <= 1) ?\n', 'LIMIT.rederived'),
         ("mitered vertex differs in the USINGZ build only", O, "#ifdef USINGZ\n    path_out.emplace_back(\n\t\tpath[j].x + (norms[k].x + norms[j].x) * q,\n\t\tpath[j].y + (norms[k].y + norms[j].y) * q,\n        path[j].z);", "#ifdef USINGZ\n    path_out.emplace_back(\n\t\tpath[j].x + (norms[k].x + norms[j].x) * q,\n\t\tpath[j].y + (norms[k].y + norms[k].y) * q,\n        path[j].z);", "ZERASE"),
         ("delta used without abs for open paths", O, "group_delta_ = std::abs(delta_);// *0.5;", "group_delta_ = delta_;", "DELTA.abs-only"),
@@ -144,6 +147,7 @@ CONTROLS = {
          "\t\tif (!group.lowest_path_idx.has_value()) delta_ = std::abs(delta_);\n\t\tgroup_delta_ = (group.is_reversed) ? -delta_ : delta_;", "LOOP"),
     ],
     "C13": [
+        ('GetDx divides dy by dx', 'CPP/Clipper2Lib/src/clipper.engine.cpp', '      return double(pt2.x - pt1.x) / dy;', '      return dy / double(pt2.x - pt1.x);', 'POLY.topx'),
         ("CrossProductSign's last factor measured from pt1", 'CPP/Clipper2Lib/include/clipper2/clipper.core.h', '    const auto c = pt2.y - pt1.y;\n    const auto d = pt3.x - pt2.x;\n\n#if', '    const auto c = pt2.y - pt1.y;\n    const auto d = pt3.x - pt1.x;\n\n#if', 'POLY.cross'),
         ("TopX rounds in single precision", E, "return ae.bot.x + static_cast<int64_t>(nearbyint(ae.dx * (currentY - ae.bot.y)));", "return ae.bot.x + static_cast<int64_t>(nearbyintf(ae.dx * (currentY - ae.bot.y)));", "FLOAT.double-only"),
         ("comparator not strict", E, "        return locMin2->vertex->pt.x > locMin1->vertex->pt.x;", "        return locMin2->vertex->pt.x >= locMin1->vertex->pt.x;", "T.comparator"),
